@@ -3,6 +3,7 @@ package codec
 import (
 	"encoding/json"
 	"fmt"
+	"sync"
 	"time"
 
 	"github.com/b2broker/simplefix-go/fix"
@@ -520,4 +521,69 @@ func wellFormedForParse(m *Msg) bool {
 	walk(m.Body)
 	walk(m.Trailer)
 	return ok
+}
+
+// RunDamageConcurrent: damaged variants are parsed while other goroutines serialize and parse the valid message
+// (the encoder and the decoder share the checksum routine): still never accepted.
+func RunDamageConcurrent(id string, tmpl *Msg, wire []byte, iters int) *DamageObs {
+	o := &DamageObs{K: "damage", ID: id, Tags: tmpl.Tags, Wire: ToB(wire), Accepted: []Accepted{}}
+	var variants [][]byte
+	for _, pos := range []int{len(wire) / 3, len(wire) / 2, 2 * len(wire) / 3} {
+		if pos > 0 && pos < len(wire)-8 && wire[pos] != 1 && wire[pos] != '=' {
+			d := append([]byte{}, wire...)
+			d[pos] ^= 0x01
+			if d[pos] == 1 {
+				d[pos] = 'x'
+			}
+			variants = append(variants, d)
+		}
+	}
+	if len(variants) == 0 {
+		return o
+	}
+	var wg sync.WaitGroup
+	var mu sync.Mutex
+	stop := make(chan struct{})
+	for g := 0; g < 3; g++ { // valid traffic: serialize and parse
+		wg.Add(1)
+		go func() {
+			defer wg.Done()
+			msg, err := Build(tmpl, false)
+			if err != nil {
+				return
+			}
+			for {
+				select {
+				case <-stop:
+					return
+				default:
+				}
+				_, _ = msg.ToBytes()
+				_ = accepts(tmpl, wire, true)
+			}
+		}()
+	}
+	var dw sync.WaitGroup
+	for g := 0; g < 3; g++ {
+		dw.Add(1)
+		go func(g int) {
+			defer dw.Done()
+			for i := 0; i < iters; i++ {
+				d := variants[(i+g)%len(variants)]
+				for _, mode := range []string{"strict", "nonstrict"} {
+					ok := accepts(tmpl, d, mode == "strict")
+					mu.Lock()
+					o.Tried++
+					if ok && len(o.Accepted) < 5 {
+						o.Accepted = append(o.Accepted, Accepted{"subst-concurrent", 0, 0, mode, ToB(d)})
+					}
+					mu.Unlock()
+				}
+			}
+		}(g)
+	}
+	dw.Wait()
+	close(stop)
+	wg.Wait()
+	return o
 }
